@@ -401,6 +401,20 @@ theorem loc_lidStep (x : Loc) (a : LOp) : LidStep x (loc x a).1 := by
     simp only [loc]; split
     · exact (Keeps.refl x).lidStep
     · exact (writeStep_keeps _ _ _).lidStep
+  | idalloc f =>
+    simp only [loc]; split
+    · exact (Keeps.refl x).lidStep
+    · split
+      · have hk := writeStep_keeps x .idRebase f
+        generalize writeStep x .idRebase f = r at hk
+        obtain ⟨x1, o⟩ := r
+        cases o
+        case ok =>
+          apply Keeps.lidStep
+          exact Keeps.trans hk ⟨rfl, rfl, rfl, rfl, fun h => h⟩
+        all_goals exact hk.lidStep
+      · apply Keeps.lidStep
+        exact ⟨rfl, rfl, rfl, rfl, fun h => h⟩
   | check => exact (Keeps.refl x).lidStep
   | isleader => exact (Keeps.refl x).lidStep
   | tso => exact (Keeps.refl x).lidStep
@@ -938,6 +952,18 @@ theorem loc_LF (x : Loc) (a : LOp) (h : LF x.etcd x.c) (hw : LWf x.c) (hpre : LP
     · next hp =>
       apply writeStep_LF x w f h _ (by simpa using hp)
       intro hw'; subst hw'; exact hpre
+  | idalloc f =>
+    simp only [loc]; split
+    · exact h
+    · next hp =>
+      split
+      · have hk := writeStep_LF x .idRebase f h (by intro hh; cases hh) (by simpa using hp)
+        generalize writeStep x .idRebase f = r at hk
+        obtain ⟨x1, o⟩ := r
+        cases o
+        case ok => exact ⟨hk.live, hk.won, hk.serve, hk.pend, hk.mem, hk.clos⟩
+        all_goals exact hk
+      · exact ⟨h.live, h.won, h.serve, h.pend, h.mem, h.clos⟩
   | check => exact h
   | isleader => exact h
   | tso => exact h
@@ -1236,6 +1262,17 @@ theorem loc_guar (x : Loc) (a : LOp) (hpre : LPre x a) : Guar x (loc x a).1 := b
     simp only [loc]; split
     · exact Guar.of_eq rfl
     · exact writeStep_guar _ _ _
+  | idalloc f =>
+    simp only [loc]; split
+    · exact Guar.of_eq rfl
+    · split
+      · have hk := writeStep_guar x .idRebase f
+        generalize writeStep x .idRebase f = r at hk
+        obtain ⟨x1, o⟩ := r
+        cases o
+        case ok => exact ⟨hk.live, hk.old, hk.recd⟩
+        all_goals exact hk
+      · exact Guar.of_eq rfl
   | check => exact Guar.of_eq rfl
   | isleader => exact Guar.of_eq rfl
   | tso => exact Guar.of_eq rfl
